@@ -380,6 +380,20 @@ func (e *Engine) evalModifies(env *Env, m *Clause) modEntry {
 		case *types.Map:
 			_, pn, _ := e.mapSorts(st)
 			return modEntry{kind: "map", elKey: strings.TrimPrefix(pn, "MP_"), ref: s.V.(*Sc).T, text: m.Text}
+		case *types.Pointer:
+			// pointer to an array: the array's elements (a row of the element map)
+			if at, ok := st.Elem().Underlying().(*types.Array); ok {
+				if pv, ok := s.V.(*PtrSV); ok && pv.Kind == pkHeap && len(pv.Path) == 0 {
+					lo, hi := e.ar.ConstI(0, 64, true), e.ar.ConstI(at.Len(), 64, true)
+					if x.Low != nil {
+						lo = e.toIdxTV(e.eval(env, x.Low))
+					}
+					if x.High != nil {
+						hi = e.toIdxTV(e.eval(env, x.High))
+					}
+					return modEntry{kind: "elems", elKey: e.typeKey(at.Elem()), ref: pv.Ref, lo: lo, hi: hi, text: m.Text}
+				}
+			}
 		}
 	case *ast.StarExpr:
 		p := e.eval(env, x.X)
